@@ -7,6 +7,9 @@ from collections import Counter
 
 PKG = "discovery"
 HARNESS = ["discovery/zz_verif_c16_test.go"]
+WIRE_PKG = "discovery/api/server"
+WIRE_HARNESS = ["discovery/api/server/zz_verif_c16_wire_test.go"]
+HARNESSES = [(PKG, HARNESS, "c16"), (WIRE_PKG, WIRE_HARNESS, "c16wire")]
 
 REQUIRED = [
     "listed_sound", "verify_iff_acceptable", "one_live_per_subject", "timestamps_strict", "retraction_needs_owner",
@@ -15,7 +18,8 @@ REQUIRED = [
     "reset_restarts", "seed_change_partial_response_unsafe", "search_sound",
     "register_accepts_iff", "register_never_panics", "poll_never_fails",
     "fact_get_reads_timestamp_first", "fact_check_order", "fact_add_deletes_previous", "fact_expiry_comparisons",
-    "fact_update_service_shape", "fact_restart_after_wipe",
+    "fact_update_service_shape", "fact_restart_after_wipe", "fact_service_writers_locked", "fact_loops_visit_everything",
+    "fact_comparisons_exact", "fact_exists_key", "fact_background_jobs", "fact_wiring",
 ]
 
 
@@ -84,6 +88,55 @@ def acceptable(vp, d, now, prev_rows):
     return why
 
 
+def wire_leg(ctx):
+    """real api.go wrapper + real http.go client around a scripted server: the transport must be faithful"""
+    binary = ctx.go_test_binary(WIRE_PKG, WIRE_HARNESS, "c16wire")
+    if binary is None:
+        ctx.oblige("wire-harness-builds", False, ctx.harness_error[-1200:])
+        return
+    out = os.path.join(ctx.scratch, "wire")
+    rc, log, out = ctx.run_harness(binary, "TestVerifC16Wire", {"VERIF_WIRE_OPS": 3000 if ctx.thorough else 400}, outdir=out, timeout=900)
+    if rc != 0:
+        ctx.oblige("wire-harness-runs", False, log[-1200:])
+        return
+    lines = [json.loads(x) for x in ctx.read_lines(os.path.join(out, "wire.out")) if x]
+    bad = Counter()
+    kinds = Counter()
+    first = {}
+
+    def flag(sig, o):
+        bad[sig] += 1
+        first.setdefault(sig, o)
+
+    for o in lines:
+        fail, known, err = o["scripted_failure"], o["known"], o["err"]
+        kinds[(o["op"], "fail" if fail else ("ok" if known else "unknown-service"))] += 1
+        if o["saw_service"] != o["service"]:
+            flag("wire:service-id-not-passed-through", o)
+        if o["op"] == "get":
+            if o["saw_after"] != o["asked"]:
+                flag("wire:timestamp-not-passed-through", o)
+            if not fail and known and (err or o["got"] != o["sent"]):
+                flag("wire:response-not-passed-through", o)
+        else:
+            if not o["same"]:
+                flag("wire:posted-presentation-altered", o)
+            if not fail and known and err:
+                flag("wire:accepted-registration-reported-as-error", o)
+        if (fail or not known) and not err:
+            flag("wire:server-error-reported-as-success", o)
+        if err:
+            want = "404" if (not known and not fail) else ("400" if "presentation is invalid" in fail else "500")
+            if f"status code {want}" not in err:
+                flag("wire:error-class-changed", o)
+    for sig, o in first.items():
+        ctx.violation("C16:" + sig, f"transport between client and server is not faithful ({bad[sig]} calls), first: {json.dumps(o)[:400]}",
+                      sig.replace(":", "-") + ".json", json.dumps(o) + "\n")
+    ctx.oblige("oracle:wire(api.go+http.go) faithful", not bad, "; ".join(f"{k} x{v}" for k, v in bad.items()))
+    ctx.cov["wire_calls"] = len(lines)
+    ctx.cov["wire_distribution"] = {f"{a}/{b}": v for (a, b), v in sorted(kinds.items())}
+
+
 def run(ctx):
     ctx.facts()
     thms = ctx.build_and_audit(["NutsProofs.Props.C16"])
@@ -103,6 +156,8 @@ def run(ctx):
         "credential revocation (removeRevoked) and forwarding to another server are not part of the property's events",
     ]
 
+    if not ctx.replay:
+        wire_leg(ctx)
     binary = ctx.go_test_binary(PKG, HARNESS, "c16")
     if binary is None:
         ctx.oblige("harness-builds", False, ctx.harness_error[-1500:])
